@@ -41,7 +41,7 @@ def observe(go_run, m, which):
 
 def correspond(ctx, C):
     st = S.SpecStats()
-    rows = S.run(ctx, C, "speccat", 128, 1280) + S.run(ctx, C, "spec", 256, 20000)
+    rows = S.run(ctx, C, "speccat", 128, 1280) + S.run(ctx, C, "spec", 256, 4000)
     known = S.known_for(C, "C09")
     viol, ties, attributed = [], [], {}
     nloc = {"default": 0, "example": 0}
